@@ -37,6 +37,8 @@ def build(tier, ctx):
                                                      else 7)]
     defs += [("FS", d) for d in fragment.staged_merge_family()
              if fragment.has_loop(d)]
+    defs += [("FK", d) for d in fragment.loop_on_break_path_family(
+        5 if tier == "quick" else 6)]
     tasks = []
     for i in range(0, len(defs), CHUNK):
         tasks.append({"defs": [(nm, dsl.to_list(d))
